@@ -68,3 +68,13 @@ Proof. unfold transform_inputs. now rewrite cut_before_a_directive. Qed.
 Theorem transformer_texts_one_by_one (A : Type) (leA : A -> A -> bool) (inputs : list (list (stmt (body_of A)))) :
   transform_inputs A leA inputs = match all_rules A (List.concat (map (resolve _ initial_state) inputs)) with Some P => transform_program A leA P | None => None end.
 Proof. unfold transform_inputs. now rewrite texts_are_resolved_one_by_one. Qed.
+(* which texts the command line tool reads (TelApp.main; the condition is REGENERATED, the statements around it are checked textually by the translator) *)
+Require Import FromApp.
+From Coq Require Import ZArith Lia.
+Inductive source := SrcFile (k : nat) | SrcStdin.        (* the k-th file named on the command line | standard input *)
+Definition main_sources (nfiles : nat) : option (list source) :=
+  match main_uses_stdin_gen nfiles with Some b => Some (map SrcFile (seq 0 nfiles) ++ (if b then [SrcStdin] else [])) | None => None end.
+Lemma main_uses_stdin_spec n : main_uses_stdin_gen n = Some (Nat.eqb n 0).
+Proof. unfold main_uses_stdin_gen, olift2. f_equal. destruct n; [reflexivity|]. cbn [Nat.eqb]. apply Z.eqb_neq. lia. Qed.
+Theorem all_files_are_read_in_order n : main_sources n = Some (if Nat.eqb n 0 then [SrcStdin] else map SrcFile (seq 0 n)).
+Proof. unfold main_sources. rewrite main_uses_stdin_spec. destruct n; [reflexivity|]. cbn [Nat.eqb]. now rewrite app_nil_r. Qed.
